@@ -4,7 +4,9 @@ CFG = dict(
     level="proof",
     lean_modules=["ElysModel.Props.C08"],
     props_files=["ElysModel/Props/C08.lean"],
-    runs=[scn_run("c08"), hist_run(focus="lp."), gentrip_run(focus="lp.")],
+    runs=[scn_run("c08"), hist_run(focus="lp."), gentrip_run(focus="lp."),
+          # governance re-submits (another leverage cap) or removes a leverage-enabled pool now and then (harness/govshock.go govLpShock)
+          dict(hist_run(nq=150, nt=300, sq=4, st=8, focus="lp."), env_quick={"VERIF_HISTS": "1", "VERIF_FOCUS": "lp.", "VERIF_GOVLP": "1"}, env_thorough={"VERIF_HISTS": "3", "VERIF_FOCUS": "lp.", "VERIF_GOVLP": "1"})],
     rule=HIST_RULE + "; plus directed scenarios (mode scn, prefix c08)",
     trusted_base=COMMON_TB + ["leveragelp macro-ops are recognised from the LP-share mint/commit and uncommit/burn bank events at position addresses; share amounts are W"],
     assumptions=["a position opened and fully closed inside one block is not tracked by the replay (its address is in neither observation)"],
